@@ -4,13 +4,20 @@ usage: seeded.py [name ...] [--tier quick] [--checks C01,C05]
 For each: git -C /repo apply patch.diff ; ./vcheck run <property> ; git -C /repo checkout -- . ; records detected / missed in seeded/results.json"""
 import sys, os, json, subprocess, time
 ROOT = "/verif"; REPO = "/repo"
+# --scratch <worktree>: apply the change in a scratch worktree of /repo instead (own build/out/evidence dirs), so /repo stays usable meanwhile
+SCRATCH = None
+for i, a in enumerate(sys.argv):
+    if a == "--scratch": SCRATCH = sys.argv[i + 1]
+ENV = dict(os.environ)
+if SCRATCH:
+    REPO = SCRATCH; ENV["VERIF_REPO"] = SCRATCH; ENV["VERIF_STATE_DIR"] = SCRATCH + "-state"; os.makedirs(SCRATCH + "-state", exist_ok=True)
 args = [a for a in sys.argv[1:] if not a.startswith("--")]
 tier = "quick"
 override = None
 for i, a in enumerate(sys.argv):
     if a == "--tier": tier = sys.argv[i + 1]
     if a == "--checks": override = sys.argv[i + 1].split(",")
-args = [a for a in args if a not in (tier,) and (override is None or a != ",".join(override))]
+args = [a for a in args if a not in (tier, SCRATCH) and (override is None or a != ",".join(override))]
 names = args or sorted(d for d in os.listdir(os.path.join(ROOT, "seeded")) if os.path.isdir(os.path.join(ROOT, "seeded", d)))
 resf = os.path.join(ROOT, "seeded", "results.json")
 results = json.load(open(resf)) if os.path.exists(resf) else {}
@@ -26,7 +33,7 @@ for n in names:
     try:
         for c in checks:
             t0 = time.time()
-            p = subprocess.run([os.path.join(ROOT, "vcheck"), "run", c, "--tier", tier], cwd=ROOT, capture_output=True, text=True)
+            p = subprocess.run([os.path.join(ROOT, "vcheck"), "run", c, "--tier", tier], cwd=ROOT, capture_output=True, text=True, env=ENV)
             viol = [l for l in p.stdout.splitlines() if l.startswith("VIOLATION")]
             detail = [l.strip() for l in p.stdout.splitlines() if l.startswith("  variant=")]
             results.setdefault(n, {})[c + ":" + tier] = {"detected": p.returncode == 1 and bool(viol), "rc": p.returncode, "wall_s": round(time.time() - t0, 1), "first": (detail[0][:300] if detail else "")}
